@@ -345,7 +345,9 @@ func (t *Miner) getTimerTx(height int64) (*lpb.Transaction, error) {
 }
 
 func (t *Miner) getUnconfirmedTx(sizeLimit int) ([]*lpb.Transaction, error) {
-	unconfirmedTxs, err := t.ctx.State.GetUnconfirmedTx(false)
+	// dedup: a pending tx that is already on the main chain (re-submitted, or confirmed by a peer's block
+	// the state has not been synced with yet) must not be packed again, the ledger refuses such a block
+	unconfirmedTxs, err := t.ctx.State.GetUnconfirmedTx(true)
 	if err != nil {
 		return nil, err
 	}
